@@ -116,6 +116,14 @@ def validate(teal: str, version: int, mode: str, stack: bool = True):
     return probs
 
 
+def discipline(teal: str, version: int, mode: str):
+    """Only the findings of the stack-height / type pass (C05's clauses); [] when the text is not analysable because of structural
+    findings (those belong to C04 and are reported there)."""
+    if validate(teal, version, mode, stack=False):
+        return []
+    return validate(teal, version, mode)
+
+
 def stack_check(prog, sub_targets):
     ops, labels = prog.ops, prog.labels
     n = len(ops)
@@ -310,8 +318,11 @@ def _canary():
     }
     for k, t in bad.items():
         v = 2 if k == "version" else 10
-        if not validate(t, v, "Application"):
+        got = validate(t, v, "Application")
+        if not got:
             raise RuntimeError(f"spec.tealcheck canary {k!r}: a program that breaks the clause is accepted - the validator is vacuous")
+        if k in ("type", "return-type") and not any("applied to" in p for p in got):
+            raise RuntimeError(f"spec.tealcheck canary {k!r}: type errors are no longer reported with the text the harnesses filter on: {got}")
     good = "#pragma version 10\nint 1\nint 2\n+\nreturn\n"
     if validate(good, 10, "Application"):
         raise RuntimeError(f"spec.tealcheck canary: a correct program is reported: {validate(good, 10, 'Application')}")
